@@ -57,6 +57,9 @@ func getSwapOutReceiverStates() States {
 				Event_OnFeeInvoicePaid: State_SwapOutReceiver_BroadcastOpeningTx,
 				Event_OnCancelReceived: State_SwapCanceled,
 				Event_ActionFailed:     State_SendCancel,
+				// The fee invoice expires together with the negotiation
+				// timeout armed when the agreement was created.
+				Event_OnTimeout: State_SendCancel,
 			},
 			FailOnrecover: true,
 		},
